@@ -2068,15 +2068,17 @@ func endRawIndex(src []byte, marker []byte) int {
 			continue
 		}
 		i += 3
+		k := i // end of the last keyword read
 		i = skipRawSpaces(src, i)
 		// Read 'raw'.
 		if isSpace(src[i-1]) && len(src) >= i+3 && src[i] == 'r' && src[i+1] == 'a' && src[i+2] == 'w' {
 			i += 3
+			k = i
 			i = skipRawSpaces(src, i)
 		}
-		// Read the marker.
+		// Read the marker, that must be separated from the keyword.
 		if l := len(marker); l > 0 {
-			if len(src) < i+l || !bytes.Equal(src[i:i+l], marker) {
+			if i == k || len(src) < i+l || !bytes.Equal(src[i:i+l], marker) {
 				i = p
 				continue
 			}
